@@ -1203,16 +1203,15 @@ func (f *fragment) min(filter *Row, bitDepth uint) (min int64, count uint64, err
 
 // minUnsigned the lowest value without considering the sign bit. Filter is required.
 func (f *fragment) minUnsigned(filter *Row, bitDepth uint) (min int64, count uint64) {
-	for i := int(bitDepth - 1); i >= 0; i-- {
+	// Every column of the filter holds the result until a bit row splits them
+	// (with a bit depth of zero all of them hold zero).
+	count = filter.Count()
+	for i := int(bitDepth) - 1; i >= 0; i-- {
 		row := filter.Difference(f.row(uint64(bsiOffsetBit + i)))
-		count = row.Count()
-		if count > 0 {
-			filter = row
+		if n := row.Count(); n > 0 {
+			filter, count = row, n
 		} else {
 			min += (1 << uint(i))
-			if i == 0 {
-				count = filter.Count()
-			}
 		}
 	}
 	return min, count
@@ -1245,14 +1244,14 @@ func (f *fragment) max(filter *Row, bitDepth uint) (max int64, count uint64, err
 
 // maxUnsigned the highest value without considering the sign bit. Filter is required.
 func (f *fragment) maxUnsigned(filter *Row, bitDepth uint) (max int64, count uint64) {
-	for i := int(bitDepth - 1); i >= 0; i-- {
+	// Every column of the filter holds the result until a bit row splits them
+	// (with a bit depth of zero all of them hold zero).
+	count = filter.Count()
+	for i := int(bitDepth) - 1; i >= 0; i-- {
 		row := f.row(uint64(bsiOffsetBit + i)).Intersect(filter)
-		count = row.Count()
-		if count > 0 {
+		if n := row.Count(); n > 0 {
 			max += (1 << uint(i))
-			filter = row
-		} else if i == 0 {
-			count = filter.Count()
+			filter, count = row, n
 		}
 	}
 	return max, count
